@@ -6,8 +6,26 @@ statement by the real compiler, executed on the real VM, and the text handed to
 `terminal_print` is compared with the specification model `qv.ref.printfmt`.
 On the short sequences the same element sequence is additionally produced in
 4 ways x 5 statement positions x 6 compiler configurations, which must all give
-the model's text (hence agree with each other)."""
+the model's text (hence agree with each other).
+
+Family `history` (qv/c17_hist.py) asks the other half of the statement - the
+text does not depend on where the statement occurs: programs of one, two and
+three PRINT statements over an alphabet of typed numbers in which the same
+number occurs as INTEGER / LONG / SINGLE / DOUBLE with differing texts, run in
+one machine; every statement must write the layout of its own items, the number
+texts being taken from runs of the single item in a fresh process.
+
+Process hygiene: the pool's worker processes live for the whole run, so state
+kept at module level by qbee/qvm would leak from one case into the next and the
+verdict of a case would depend on which cases the same worker happened to get
+before.  Therefore nothing of qbee is executed in a worker itself: every job is
+evaluated in a child forked for it (`isolated`), so the verdict of a job is a
+function of the job alone; a violation found there is evaluated once more, on
+its own, in another fresh child, and the case records whether it shows there
+too (if not, the programs executed before it in the job are part of the case)."""
 from .. import impl
+from .. import c17_run, c17_hist
+from ..c17_run import observe, isolated, cfgname
 from ..ref import printfmt
 
 LEVEL = 'exploration'
@@ -121,33 +139,6 @@ def program(seqs, way, position):
     return '\n'.join(lines) + '\n'
 
 
-def observe(src, nstmts, cfg):
-    """-> (status, texts, typed) ; texts[i] = what statement i printed"""
-    o, g = cfg
-    r = impl.compile_text(src, o, g, want_listing=False)
-    if not r.ok:
-        return ('compile:' + r.brief()[:160], None, None)
-    try:
-        mod = impl.load(r.binary)
-    except ValueError as e:
-        return ('load:' + str(e)[:100], None, None)
-    env = impl.Env({})
-    out, _ = impl.run_module(mod, env, horizon=400 * (nstmts + 20) + 2000, typed_prints=True)
-    texts = []
-    cur = None
-    for ev in out.events:
-        if ev[0] == 'dev' and ev[1:3] == ('pcspkr', 'beep'):
-            if cur is not None:
-                texts.append(cur)
-            cur = ''
-        elif ev[0] == 'print' and cur is not None:
-            cur += ev[1]
-    status = 'ok'
-    if out.end not in ('halt', 'eoc') or len(texts) != nstmts:
-        status = 'run:%s/%s/%s' % (out.end, out.trap or out.exc, len(texts))
-    return (status, texts, out.prints)
-
-
 def _same_items(typed, elems):
     if typed is None or len(typed) != len(elems):
         return False
@@ -158,10 +149,6 @@ def _same_items(typed, elems):
         elif not (isinstance(t, tuple) and t[0] == e[0] and t[1] == e[1] and type(t[1]) is type(e[1])):
             return False
     return True
-
-
-def cfgname(cfg):
-    return 'O%d%s' % (cfg[0], 'g' if cfg[1] else '')
 
 
 def judge_one(seq, way, position, cfg):
@@ -179,7 +166,8 @@ def judge_one(seq, way, position, cfg):
     return None
 
 
-def eval_chunk(chunk):
+def _eval_job(chunk):
+    """runs in a child forked for this job"""
     impl.parse_cache(True)
     viol = []
     st = {'evaluations': 0, 'programs': 0, 'nontrivial': 0, 'texts': set(), 'item_mismatch': 0,
@@ -208,6 +196,7 @@ def eval_chunk(chunk):
                     st['nontrivial'] += 1
                 if COMMA in s:
                     st['zone_pads'] += 1
+            li = len(c17_run.LOG) - 1
             for i in bad:
                 v = judge_one(seqs[i], way, position, cfg)
                 alone = True
@@ -226,9 +215,41 @@ def eval_chunk(chunk):
                 case = {'seq': list(seqs[i]), 'way': way, 'position': position, 'config': list(cfg),
                         'source': vsrc, 'alone': alone, 'index': i if not alone else 0,
                         'nstmts': len(seqs) if not alone else 1,
-                        'elements': impl.jsonable(elements(seqs[i]))}
+                        'elements': impl.jsonable(elements(seqs[i])),
+                        'log_index': li if not alone else len(c17_run.LOG) - 1}
                 viol.append((feat, case, exp, got, len(seqs[i])))
-    return viol, st
+    return viol, st, (list(c17_run.LOG) if viol else [])
+
+
+def check_case(case):
+    """one stored case on its own -> (violates, status, typed items, expected, observed)"""
+    cfg = tuple(case['config'])
+    seq = tuple(case['seq'])
+    exp = printfmt.layout(elements(seq))
+    status, texts, typed = observe(case['source'], case['nstmts'], cfg)
+    i = case['index']
+    got = printfmt.normalise(texts[i]) if texts and i < len(texts) else None
+    t = typed[i] if typed and i < len(typed) else None
+    ok = status == 'ok' and got == exp and _same_items(t, elements(seq))
+    return (not ok, status, t, exp, got)
+
+
+def _recheck(case):
+    return check_case(case)[0]
+
+
+def eval_chunk(chunk):
+    """nothing of qbee runs in the (long-lived) worker: each job in a child of its own"""
+    viol, stats = [], {}
+    for job in chunk:
+        v, st, log = isolated(_eval_job, [job])
+        viol += c17_run.classify(v, log, _recheck)
+        for k, x in st.items():
+            if isinstance(x, set):
+                stats.setdefault(k, set()).update(x)
+            else:
+                stats[k] = stats.get(k, 0) + x
+    return viol, stats
 
 
 def _chunks(lst, n):
@@ -268,9 +289,43 @@ def space(tier):
     return fams
 
 
+def run_history(chk, desc):
+    """family `history`; evaluated first, while no worker has done anything"""
+    refs = {}
+    for viol, r in chk.pmap(c17_hist.ref_chunk, c17_hist.ALL, chunk=1):
+        chk.add_violations(viol)
+        refs.update(r)
+    jobs, d = c17_hist.space(chk.tier)
+    for viol, st in chk.pmap(c17_hist.hist_chunk, jobs, extra=(refs,), chunk=1):
+        chk.add_violations(viol)
+        chk.merge_stats(st)
+    chk.cov['evaluations'] += 12 * len(c17_hist.ALL)
+    d['reference_texts'] = dict((c, r) for c, r in sorted(refs.items()))
+    dist = []
+    for a in c17_hist.ALL:
+        for b in c17_hist.ALL:
+            ta, tb = c17_hist.HD[a][1], c17_hist.HD[b][1]
+            if a < b and ta[1] == tb[1] and refs.get(a) and refs.get(b) and \
+                    refs[a]['num'] != refs[b]['num']:
+                dist.append('%s/%s' % (a, b))
+    d['same_number_different_text'] = dist
+    desc['history'] = d
+    for job in (jobs[0], jobs[len(jobs) // 2], jobs[-1]):
+        prog = job[2][len(job[2]) // 2]
+        if all(refs.get(c) for s in prog for c in c17_hist.codes_of(s)):
+            chk.sample({'family': 'history', 'shape': job[0],
+                        'statements': [c17_hist.stmt_text(s) for s in prog],
+                        'model_texts': [printfmt.layout(*c17_hist.expected(s, refs)) if c17_hist.is_print(s)
+                                        else '' for s in prog]})
+
+
 def run(chk):
     fams = space(chk.tier)
     desc = {}
+    if not chk.only or 'history' in chk.only:
+        run_history(chk, desc)
+    else:
+        chk.cov['exhaustive'] = False
     for name, (items, d) in fams.items():
         if chk.only and name not in chk.only:
             chk.cov['exhaustive'] = False
@@ -291,30 +346,60 @@ def run(chk):
     chk.assumptions = [
         'element sequences are bounded as listed per family; nothing is claimed for longer statements',
         'the column a PRINT starts in is taken as 0 (the property defines the text per statement)',
-        'number texts of the 5 numeric items are constants of the model (C16 owns number to text)']
+        'number texts of the 5 numeric items of the conformance families are constants of the model '
+        '(C16 owns number to text)',
+        'family history: the text of a number is what PRINT of that one variable writes when it is the only '
+        'PRINT of a program run in a process forked for it; of that text only "is a numeral of the value, '
+        'followed by one blank, the same in all configurations" is demanded',
+        'every job is evaluated in a child process forked for it from a worker that never executes qbee '
+        'itself, so verdicts do not depend on the order in which workers receive jobs; state kept by the '
+        'compiler between the programs of one job is not separated']
     chk.finish(
         rule=('every grammatical element sequence up to the bound is one PRINT statement, compiled and run '
               '(packed ~60-110 per program, separated by BEEP device calls); an evaluation = one statement in one '
               'configuration; non-trivial = the sequence has an item and at least two elements (the running column '
-              'matters); distinct outcomes = distinct correct texts observed'),
+              'matters), and every statement of the history family; distinct outcomes = distinct correct '
+              'texts observed'),
         extra_cov={'families': desc, 'distinct_outcomes': ntexts})
 
 
 def replay(rec):
     c = rec['case']
     cfg = tuple(c['config'])
-    seq = tuple(c['seq'])
-    exp = printfmt.layout(elements(seq))
+    if c.get('earlier_programs'):
+        print('(the deviation was only seen after %d earlier programs in the same process; they are '
+              'executed first)' % len(c['earlier_programs']))
+        c17_run.run_earlier(c)
     print('--- source (%s) ---' % cfgname(cfg))
     print(c['source'])
-    status, texts, typed = observe(c['source'], c['nstmts'], cfg)
-    i = c['index']
-    got = printfmt.normalise(texts[i]) if texts and i < len(texts) else None
+    if 'prog' in c:
+        return replay_history(c)
+    seq = tuple(c['seq'])
+    bad, status, typed, exp, got = check_case(c)
     print('elements :', elements(seq))
     print('status   :', status)
-    print('typed    :', typed[i] if typed and i < len(typed) else None)
+    print('typed    :', typed)
     print('expected :', repr(exp))
     print('observed :', repr(got))
-    ok = status == 'ok' and got == exp and _same_items(typed[i], elements(seq))
-    print('VIOLATES' if not ok else 'agrees with the model')
-    return 0 if ok else 1
+    print('VIOLATES' if bad else 'agrees with the model')
+    return 1 if bad else 0
+
+
+def replay_history(c):
+    refs = None
+    if c['kind'] == 'program' and not c.get('earlier_programs'):
+        # reference texts afresh: each single PRINT in a child forked before this process ran anything
+        refs = {}
+        for code in sorted(c['references']):
+            refs[code], v = c17_hist.reference(code)
+            print('reference %-3s %-28s:' % (code, impl.jsonable(c17_hist.HD[code][1])), refs[code],
+                  '(the reference itself deviates: %r)' % [(x[0]['divergence'], x[3]) for x in v] if v else '')
+        if any(r is None for r in refs.values()):
+            refs = None
+    bad, info = c17_hist.check_case(c, refs)
+    for k, v in info.items():
+        print(k, ':')
+        for x in (v if isinstance(v, list) else [v]):
+            print('   ', x)
+    print('VIOLATES' if bad else 'agrees with the model')
+    return 1 if bad else 0
